@@ -9,6 +9,8 @@
 From Coq Require Import List ZArith NArith Bool.
 Import ListNotations.
 Require Import RV.Model.Server RV.Proofs.ServerInv RV.Proofs.ServerProofs RV.Proofs.ServerExamples.
+Require Import RV.Model.ServerMain RV.Proofs.ServerMainProofs.
+Require RV.Gen.MainSigGen RV.Proofs.GenEqMainSig.
 Open Scope Z_scope.
 
 (* ---- 1. never more than max_connections connections in flight (hence requests inside the handler) ---- *)
@@ -149,6 +151,53 @@ Proof. exact c20_enter_only_dispatch. Qed.
 Print Assumptions C20_enter_only_dispatch.
 
 (* ---- 5. shutdown ---- *)
+(* -- exit signals (radicale/__main__.py run(), REGENERATED on every run into Gen/MainSigGen.v) -- *)
+(* the signal-related statements of run() are the ones the model was written from: the same exit signals, the shutdown
+   handler installed for ALL of them just before serve(), and a handler body that does exactly shutdown_socket.close() *)
+Theorem C20_main_is_the_code : MainSigGen.mainsig_skeleton = main_skeleton /\
+  MainSigGen.shutdown_handler = shutdown_handler_model.
+Proof. exact (conj GenEqMainSig.Gen_mainsig_skeleton_eq GenEqMainSig.Gen_shutdown_handler_eq). Qed.
+Print Assumptions C20_main_is_the_code.
+
+(* for the handler of the code: ANY number n >= 1 of exit signals, in any order (they share the handler), leaves the
+   process inside serve(), draining, with the same handler installed -- no signal makes it leave serve() *)
+Theorem C20_signals_keep_draining : forall n,
+  let p := deliver_n MainSigGen.shutdown_handler (S n) proc0 in
+  alive p = Running /\ sock_closed p = true /\ installed p = HShutdown.
+Proof. rewrite GenEqMainSig.Gen_shutdown_handler_eq. exact shutdown_handler_model_ok. Qed.
+Print Assumptions C20_signals_keep_draining.
+
+(* ... in general for every handler body that closes the socket and installs nothing that leaves serve() *)
+Theorem C20_signals_keep_draining_general : forall acts n, forallb keeps_draining acts = true ->
+  forallb (fun a => negb (installs_ignore a)) acts = true -> existsb closes acts = true ->
+  let p := deliver_n acts (S n) proc0 in
+  alive p = Running /\ sock_closed p = true /\ installed p = HShutdown.
+Proof. exact signals_keep_draining. Qed.
+Print Assumptions C20_signals_keep_draining_general.
+
+(* a further signal to a draining process changes nothing; sensitivity: re-installing the start-up handler would make
+   the SECOND signal leave serve() with requests in flight *)
+Theorem C20_further_signal_is_noop : forall p, installed p = HShutdown -> alive p = Running -> sock_closed p = true ->
+  deliver MainSigGen.shutdown_handler p = p.
+Proof. rewrite GenEqMainSig.Gen_shutdown_handler_eq. exact further_signal_is_noop. Qed.
+Print Assumptions C20_further_signal_is_noop.
+
+Theorem C20_reinstalling_handler_would_break :
+  let bad := [AInstall HExit; ACloseShutdown] in
+  alive (deliver_n bad 1 proc0) = Running /\ alive (deliver_n bad 2 proc0) = Exited 1.
+Proof. exact reinstalling_handler_breaks. Qed.
+Print Assumptions C20_reinstalling_handler_would_break.
+
+(* in the server model each such signal is the event EStop: idempotent and possible in every state *)
+Theorem C20_stop_idempotent : forall cfg s, stop s = true -> step cfg s EStop = Some (s, []).
+Proof. exact c20_stop_idempotent. Qed.
+Print Assumptions C20_stop_idempotent.
+
+Theorem C20_stop_always_enabled : forall cfg s, exists s', step cfg s EStop = Some (s', []) /\ stop s' = true /\
+  pc s' = pc s /\ workers s' = workers s /\ backlog s' = backlog s /\ accepted s' = accepted s.
+Proof. exact c20_stop_always_enabled. Qed.
+Print Assumptions C20_stop_always_enabled.
+
 (* once the shutdown socket is readable and no iteration is half-way, nothing is ever accepted again *)
 Theorem C20_shutdown_no_accept : forall cfg s e s' o, closing s -> step cfg s e = Some (s', o) ->
   closing s' /\ accepted s' = accepted s /\ forall l c, ~ In (OAccepted l c) o.
